@@ -23,7 +23,7 @@ EXPLANATION = ("mirflow/z3 over the server binary's MIR (async RPC bodies rebuil
 TRUSTED_BASE = ["rustc MIR construction", "z3 4.8.12 (z3 5.1 cross-check in thorough)", "callees opaque: TieredEngine::{exists,insert,delete,batch_delete,bulk_load_cold_tier} report truthfully (their own behaviour is C03/C09)",
                 "parking_lot::Mutex gives mutual exclusion"]
 NOT_COVERED = ["count == live documents over whole histories (needs a live engine; only per-path accounting is decided)", "restart recount beyond its call structure (O14.6)",
-               "engine-level exactness of the count returned by batch_delete with duplicate ids", "UsageTracker (/usage) counters", "schedules: the lock discipline is decided, interleavings are not enumerated",
+               "engine-level exactness of the count returned by batch_delete beyond the sort-before-dedup obligation O14.5 (e.g. ids that exist only as a stale hot-tier mirror are counted)", "UsageTracker (/usage) counters", "schedules: the lock discipline is decided, interleavings are not enumerated",
                "that tenant_quota_lock returns the same mutex for the same tenant (HashMap keyed by tenant id; read from the code, not decided)"]
 
 RPC = lambda name: "<KyroDBServiceImpl as KyroDbService>::%s::{closure#0}::{closure#0}" % name
@@ -269,6 +269,9 @@ def startup_recount(F):
 
 BIN = "bin/kyrodb_server.rs"
 MOS = [
+    MO("O14.5/unique_ids", "TieredEngine::batch_delete / batch_delete_by_filter / batch_delete_by_metadata_filter: the id list is sorted before Vec::dedup (which removes only consecutive duplicates), so the deletion count the "
+       "server decrements by counts every document once", sorted_before_dedup(r"^tiered_engine::TieredEngine::batch_delete"), functions=[("tiered_engine.rs", "batch_delete"), ("tiered_engine.rs", "batch_delete_by_filter"),
+                                                                                                                                         ("tiered_engine.rs", "batch_delete_by_metadata_filter")]),
     MO("O14.1/insert", "Insert: engine.insert only after a granted reservation; no early return leaks a reservation; a failed insert of a new document decrements by 1; successful inserts and overwrites never decrement",
        insert_accounting("insert"), functions=[(BIN, "insert")], target="kyrodb_server"),
     MO("O14.1/bulk_insert", "BulkInsert (per streamed item): same accounting as Insert", insert_accounting("bulk_insert"), functions=[(BIN, "bulk_insert")], target="kyrodb_server"),
